@@ -57,7 +57,7 @@ CFG = {
             "effects (Effect::new/new_sync/new_isomorphic/watch/watch_sync, RenderEffect::new/new_isomorphic, AsyncDerived, "
             "ImmediateEffect::new/new_scoped/new_mut/new_isomorphic)/memos/scoped tasks (spawn_local_scoped, spawn_local_scoped_with_cancellation, "
             "ScopedFuture; two segments each) that create signals, stored values, cleanups (plain and registering-during-cleanup), contexts, "
-            "nested effects/memos/owners/tasks and write signals (`z`: the recursive shape of an immediate effect); histories of creation under up to two nested `Owner::with`, `cleanup`, handle drop, "
+            "nested effects/memos/owners/tasks and write signals (`z`: the recursive shape of an immediate effect); histories of creation under up to two nested `Owner::with`, `cleanup`, handle drop, `set(); unset()` of a root with its last handle, "
             "`dispose`, direct `with_cleanup`, signal writes + poll/idle schedules, pause/resume, context lookups (use / expect / with / take / update_context); first block = the context matrix "
             "(a chain of 4 owners, the same type provided at every subset of the levels x take_context from each level repeated until nothing is left, "
             "every lookup API from every level in between, re-provide + update_context; 5 nested-effect shapes), the scoped-task matrix "
